@@ -318,7 +318,7 @@ static const std::vector<std::vector<int>> &all_forests(int n) {
     return cache[n] = out;
 }
 
-Case gen_case(const std::string &profile, uint64_t seed, const GenOpts &go) {
+static Case gen_case_inner(const std::string &profile, uint64_t seed, const GenOpts &go) {
     Case c; c.profile = profile; c.seed = seed;
     uint64_t cfg_seed = sim::derive(0x5e1f00dULL + std::hash<std::string>()(profile) % 1000003ULL, seed / (uint64_t)go.S);
     Rng rc(cfg_seed), rs(sim::derive(seed, 0xabcdef));
@@ -821,5 +821,33 @@ Case gen_case(const std::string &profile, uint64_t seed, const GenOpts &go) {
         return c;
     }
     // unknown profile: empty case
+    return c;
+}
+
+// Right-hand sides with exact zeros (a fourth of the cases of the solving profiles; the configuration stream is not touched, so the
+// other cases of a profile keep their seeds): scattered zeros, a zero leading block, or a single unit vector.  With reducible
+// matrices the solution then has exactly zero components too, which the solves and the refinement treat on paths of their own.
+Case gen_case(const std::string &profile, uint64_t seed, const GenOpts &go) {
+    Case c = gen_case_inner(profile, seed, go);
+    static const char *solving[] = {"ssv", "svx", "hist", "leak", "sym", "symleak", "carry", "strf"};
+    bool apply = false; for (auto p : solving) if (profile == p) apply = true;
+    if (!apply || c.nrhs <= 0 || c.M.n < 2) return c;
+    Rng rb(sim::derive(seed / (uint64_t)go.S, 0xb5e0));
+    bool reducible = c.family.find("block") != std::string::npos || c.family.find("forest") != std::string::npos;
+    if (!rb.chance(reducible ? 0.5 : 0.25)) return c;
+    int n = c.M.n, mode = (int)rb.below(3);
+    for (auto &b : c.rhs) {
+        if ((int)b.size() < c.ldb * c.nrhs) continue;
+        for (int j = 0; j < c.nrhs; ++j) {
+            int lead = (int)rb.range(1, n - 1), unit = (int)rb.below(n);
+            for (int i = 0; i < n; ++i) {
+                cld &x = b[(size_t)j * c.ldb + i];
+                if (mode == 0) { if (rb.chance(0.6)) x = cld(0, 0); }
+                else if (mode == 1) { if (i < lead) x = cld(0, 0); }
+                else x = i == unit ? cld(1, 0) : cld(0, 0);
+            }
+        }
+    }
+    c.tags["sparse_rhs"] = mode + 1;
     return c;
 }
